@@ -133,13 +133,39 @@ func c07LockSections(r *core.Run) {
 				}
 			}
 		}
+		// defer dm.releaseHelper(key, ...): a same-package function that unlocks its parameter
+		core.Instrs(f, func(in ssa.Instruction) {
+			d, isDefer := in.(*ssa.Defer)
+			if !isDefer {
+				return
+			}
+			h := p.ByObj[core.CalleeObj(d)]
+			if h == nil || h.SSA == nil || h.Pkg.PkgPath != f.Pkg.Pkg.Path() {
+				return
+			}
+			for _, u := range findInstrs(h.SSA, false, callTo(fnLockerUnlock)) {
+				if _, nested := u.(*ssa.Defer); nested {
+					continue
+				}
+				ua := u.(ssa.CallInstruction).Common().Args
+				pa, isP := canonVal(ua[len(ua)-1]).(*ssa.Parameter)
+				if !isP {
+					continue
+				}
+				for i, hp := range h.SSA.Params {
+					if hp == pa && i < len(d.Call.Args) && canonVal(d.Call.Args[i]) == canonVal(key) && u.Block() == h.SSA.Blocks[0] {
+						paired = true
+					}
+				}
+			}
+		})
 		// the defer is registered right after the lock: every return after Lock passes it
 		r.Check(paired, "rmw-lock-pairing", s.fn.Name+" deferred Unlock", where,
 			"the same key is released by a deferred function", "the per-key lock is not released by a deferred Unlock of the same key: a failing section leaves the key locked forever, or releases another key")
 
 		// (2) the read and the write are inside the section
-		reads := findInstrs(f, false, callTo(fnDMapGet, dmapPkg+".(*DMap).loadCurrentAtomicInt", dmapPkg+".(*DMap).loadCurrentAtomicFloat"))
-		writes := findInstrs(f, false, callTo(fnDMapPut, dmapPkg+".(*DMap).deleteKeys", dmapPkg+".(*DMap).Expire"))
+		reads := findEventsVia(p, f, callTo(fnDMapGet, dmapPkg+".(*DMap).loadCurrentAtomicInt", dmapPkg+".(*DMap).loadCurrentAtomicFloat"))
+		writes := findEventsVia(p, f, callTo(fnDMapPut, dmapPkg+".(*DMap).deleteKeys", dmapPkg+".(*DMap).Expire"))
 		inside := len(reads) >= 1 && len(writes) >= 1
 		for _, x := range append(reads, writes...) {
 			if !core.Dominates(s.lock, x) {
